@@ -40,9 +40,19 @@ fn conv<T: FromMeta>(m: &syn::Meta) -> R {
     }
 }
 
+fn conv_value<T: FromMeta>(l: &syn::Lit) -> R {
+    match catch(std::panic::AssertUnwindSafe(|| T::from_value(l))) {
+        Ok(Ok(_)) => R::Ok,
+        Ok(Err(e)) => R::Err(e.flatten().into_iter().map(|l| (l.to_string(), l.explicit_span().and_then(vrt::spans::cols))).collect()),
+        Err(p) => R::Panic(p),
+    }
+}
+
 pub struct Tg {
     pub name: &'static str,
     pub conv: fn(&syn::Meta) -> R,
+    /// the literal hook called directly (what wrappers and collection elements do)
+    pub conv_value: fn(&syn::Lit) -> R,
     pub cases: Vec<String>,
 }
 
@@ -65,7 +75,7 @@ fn list_cases(good: &[&str], bads: &[&str], wrap: (&str, &str)) -> Vec<String> {
 
 macro_rules! tg {
     ($v:ident, $t:ty, $cases:expr) => {
-        $v.push(Tg { name: stringify!($t), conv: conv::<$t>, cases: $cases });
+        $v.push(Tg { name: stringify!($t), conv: conv::<$t>, conv_value: conv_value::<$t>, cases: $cases });
     };
 }
 
@@ -171,6 +181,22 @@ pub fn check_case(tg: &Tg, marked: &str, t: &mut Tally) {
                             bad(format!("leaf `{msg}` is spanned at columns {s:?}, the part at fault is at {regions:?}"), t);
                         }
                     }
+                }
+            }
+        }
+    }
+    // a literal value refused by the conversion is refused by the literal hook as well, with a
+    // span inside the literal (hand-written conversions re-span nothing)
+    if let syn::Meta::NameValue(syn::MetaNameValue { value: syn::Expr::Lit(l), .. }) = &meta {
+        use syn::spanned::Spanned;
+        let lit_cols = vrt::spans::cols(l.lit.span());
+        if let R::Err(leaves) = (tg.conv_value)(&l.lit) {
+            t.hit("builtin_from_value_checked");
+            for (msg, sp) in leaves {
+                match (sp, lit_cols) {
+                    (None, _) => bad(format!("from_value on the literal: leaf `{msg}` carries no span"), t),
+                    (Some(s), Some(lc)) if !vrt::spans::within(s, lc) => bad(format!("from_value on the literal: leaf `{msg}` is spanned at {s:?}, the literal is at {lc:?}"), t),
+                    _ => {}
                 }
             }
         }
